@@ -152,7 +152,7 @@ def run(ctx):
         PB = rand_points(rng, nb, dimb)
         if op == "div":
             PB = [(F(rng.randint(1, 9), rng.randint(1, 4)),) for _ in range(nb)]
-        WA = rand_weights(rng, na, "pos") if ratA else None
+        WA = rand_weights(rng, na, rng.choice(["pos", "pos", "pos", "neg"])) if ratA else None
         WB = rand_weights(rng, nb, "pos") if ratB else None
         if label == "interval":
             UB = [x + 1 for x in UB]
